@@ -35,6 +35,8 @@ const (
 	epermU = 1
 )
 
+var spinSink atomic.Uint64
+
 func tsync(c *Case) {
 	tc := c.TSync
 	if tc == nil {
@@ -175,11 +177,14 @@ func tsync(c *Case) {
 	// the loader
 	runtime.LockOSThread()
 	loaderTid := syscall.Gettid()
+	var sink uint64
 	for i := 0; i < tc.LoaderSpin; i++ {
-		if i%3 == 0 {
+		sink += uint64(i) * 2654435761
+		if i < 4 {
 			runtime.Gosched()
 		}
 	}
+	spinSink.Store(sink)
 	before := snapshot()
 	f := buildFilter(c)
 	loading.Store(true)
